@@ -320,8 +320,88 @@ def ob_dependency_cache_machines():
     return h
 
 
+class GenFS:
+    """dictionary file system with a generation counter per file: every creation / truncation / rename onto / in-place copy of a path gives it a new generation
+    ("touched"); reading does not. Stands for builtins.open, os.replace / unlink / path.exists and shutil.copyfile / copymode / copy2 in the module under test"""
+    def __init__(self): self.files = {}; self.gen = 0
+
+    def put(self, path, content):
+        self.gen += 1; self.files[path] = [content, self.gen]
+
+    def open(self, name, mode='r', **k):
+        fs = self
+        if 'w' in mode:
+            fs.put(name, '')
+            class WF:
+                def write(s, x): fs.files[name][0] = fs.files[name][0] + x
+                def writelines(s, xs):
+                    for x in xs: s.write(x)
+                def __enter__(s): return s
+                def __exit__(s, *a): return False
+            return WF()
+        if name not in fs.files: raise FileNotFoundError(name)
+        content = fs.files[name][0]
+        class RF:
+            def read(s): return content
+            def readlines(s):
+                out = []; cur = []
+                for ch in chars_of(content):
+                    cur.append(ch)
+                    if decide(ceq(ch, 10)): out.append(mkstr(cur)); cur = []
+                if cur: out.append(mkstr(cur))
+                return out
+            def __enter__(s): return s
+            def __exit__(s, *a): return False
+        return RF()
+
+    def replace(self, a, b): self.gen += 1; self.files[b] = [self.files.pop(a)[0], self.gen]
+    def unlink(self, a): del self.files[a]
+    def copyfile(self, a, b, **k): self.put(b, self.files[a][0])
+    def exists(self, a): return a in self.files
+
+
+def ob_configure_file_untouched():
+    """configure_file(input:, configuration:) run TWICE into the same build directory (the real do_conf_file -> do_conf_str -> replace_if_different on the
+    dictionary file system): the template text (0-4 characters, may or may not spell a placeholder) and the value of the second run (equal to the first or not)
+    are symbolic. The output always ends with the right content, and the second run touches it iff its content changes - whether or not anything was substituted"""
+    def h():
+        import harness.c14 as c14
+        U = M.U
+        if c14.U is None: c14.setup()
+        fmt = ['meson', 'cmake@'][choose(2, 'format')]
+        tmpl = sym_str(choose(5, 'template length'), 'template', alphabet='@Ka\n')
+        v1 = sym_str(1, 'value1', alphabet='ab'); v2 = sym_str(1, 'value2', alphabet='ab')
+        fs = GenFS(); fs.put('/src/in', tmpl)
+        saved = (U.__dict__.get('open'), U.os, U.shutil)
+        U.open = fs.open
+        U.os = types.SimpleNamespace(replace=fs.replace, unlink=fs.unlink, path=types.SimpleNamespace(exists=fs.exists, join=os.path.join, basename=os.path.basename, dirname=os.path.dirname))
+        U.shutil = types.SimpleNamespace(copymode=lambda a, b, **k: None, copyfile=fs.copyfile, copy2=fs.copyfile, copy=fs.copyfile, copystat=lambda a, b, **k: None)
+        try:
+            U.do_conf_file('/src/in', '/bld/out', c14.CD([('K', (v1, None))]), fmt)
+            check('/bld/out' in fs.files and '/bld/out~' not in fs.files, 'first run: output written, temporary file gone')
+            if '/bld/out' not in fs.files: return
+            c1, g1 = fs.files['/bld/out']
+            src_gen = fs.files['/src/in'][1]
+            U.do_conf_file('/src/in', '/bld/out', c14.CD([('K', (v2, None))]), fmt)
+        finally:
+            U.os, U.shutil = saved[1], saved[2]
+            if saved[0] is None: del U.open
+            else: U.open = saved[0]
+        check('/bld/out' in fs.files and '/bld/out~' not in fs.files, 'second run: output present, temporary file gone')
+        c2, g2 = fs.files['/bld/out']
+        same = len(c1) == len(c2) and decide(bt_any(eq(c1, c2)))
+        check((g2 == g1) == bool(same), 'a re-run touches the output iff its content changes')
+        if decide(bt_any(eq(v1, v2))): check(same, 'the same template and data give the same output')
+        check(fs.files['/src/in'][1] == src_gen, 'the template is never written')
+        cover('kept' if same else 'replaced')
+        cover('substituted' if not (len(c1) == len(tmpl) and decide(bt_any(eq(c1, tmpl)))) else 'verbatim')
+    return h
+
+
 def obligations(tier):
     return [Obligation('replace-if-different', ob_replace(), dict(old='absent | 0-2 chars over a b newline', new='0-2 chars'), labels=('kept', 'replaced')),
+            Obligation('configure-file-untouched', ob_configure_file_untouched(), dict(real='do_conf_file -> do_conf_str -> replace_if_different, twice', format='meson | cmake@', template='0-4 chars over @ K a newline', values='1 char each run, equal or not'),
+                       labels=('kept', 'replaced', 'substituted', 'verbatim'), max_paths=2000000),
             Obligation('buildoptions-order', ob_buildoptions(), dict(options='b_lto b_ndebug b_pie, symbolic values', insertion_order='every permutation'), labels=('done',)),
             Obligation('ninja-deps-order', ob_ninja_order(), dict(deps='4: a, ./a, one symbolic of 3 chars over a . /, one of 1 char', orderdeps='3 (1 symbolic)', insertion_order='every permutation of both'), labels=('done',), max_paths=2000000),
             Obligation('optionkey-order', ob_optionkey_order(), dict(keys='2: name 1 char over abc, subproject None | "" | a | b, machine host | build'), labels=('done',)),
